@@ -53,6 +53,9 @@ type Options struct {
 	// loops; the packer loop stays parked because the mock communicator never reports "synced") instead of the
 	// VerifInit hook. Blocks are still fed through VerifProcessBlock / VerifDoPack.
 	RealRun bool
+	// DelegatorAcct, if > 0, makes dev account number DelegatorAcct-1 the "delegator contract" of the staker
+	// (params key delegator-contract-address): that account may call staker.addDelegation.
+	DelegatorAcct int
 }
 
 // DefaultLaunch is a fixed genesis time far enough in the past that no generated block is a "future block".
@@ -189,7 +192,7 @@ func NewNet(o Options) *Net {
 		Accounts:   accs,
 		Authority:  auths,
 		Stakers:    stakers,
-		Params:     genesis.Params{ExecutorAddress: &devs[0].Address, MaxBlockProposers: &mbp},
+		Params:     genesis.Params{ExecutorAddress: &devs[0].Address, MaxBlockProposers: &mbp, DelegatorContract: delegator(o, devs)},
 		ForkConfig: fc,
 		Config:     netConfig(o, &tp),
 	})
@@ -203,6 +206,13 @@ func NewNet(o Options) *Net {
 	n.God = n.openNode(-1, kvrec.New(), true)
 	n.B0 = n.God.Repo.GenesisBlock()
 	return n
+}
+
+func delegator(o Options, devs []genesis.DevAccount) *thor.Address {
+	if o.DelegatorAcct <= 0 {
+		return nil
+	}
+	return &devs[o.DelegatorAcct-1].Address
 }
 
 // netConfig: thor.SetConfig ignores zero fields and is process-global, so every net sets every field it may have
